@@ -133,8 +133,21 @@ def ttlOps : LockOps TtlMap where
 
 /-! ### the protocol -/
 
+/-- what a guarded body can end with: an exception of the application, every exception class that
+`cashews/exceptions.py` itself defines (the body may talk to the cache and let its errors through), and
+a `BaseException` that is not an `Exception` (other than cancellation, which is `How.cancel`) -/
+inductive ExcClass where
+  | user                       -- any exception class of the application / the standard library
+  | cacheError | backendNotAvailable | notConfigured | unsupportedPickler | unSecureData | signIsMissing
+  | wrongKey | tagNotRegistered | locked | backendInteraction | rateLimit | circuitBreakerOpen
+  | baseException              -- a BaseException subclass outside Exception raised by the body
+  | other                      -- an exception class this list does not know yet
+  deriving DecidableEq, Repr
+
 inductive How where
-  | normal | exc | cancel
+  | normal
+  | exc (c : ExcClass)
+  | cancel
   | closed      -- `GeneratorExit` at the yield point of a `@locked` async generator: the consumer stopped iterating
                 -- (`break` + `aclose()`, `aclosing(...)`, or the abandoned generator finalised by the event loop)
   deriving DecidableEq, Repr
